@@ -267,7 +267,7 @@ Lemma mem_build_rep c bk u v0 :
   Rep c v' [] /\ vbk v' = bk /\ uevents u' = uevents u /\ unext u' = unext u /\ ufuse u' = ufuse u.
 Proof.
   intros Hwf v' u' E. unfold mem_build in E.
-  destruct bk as [|size|n size| |]; cbn [bk_wf] in *.
+  destruct bk as [|size|n size| |c0]; cbn [bk_wf] in *.
   - unfold setv in E. cbn [fst snd] in E. injection E as <- <-.
     splits; auto. constructor; cbn [vlen vcap vmem length]; auto; try lia.
     unfold store_ok. cbn. lia.
@@ -292,7 +292,7 @@ Proof.
     unfold store_ok. cbn. lia.
   - unfold bind, emitv, setv in E. cbn [fst snd] in E. injection E as <- <-.
     splits; auto. constructor; cbn [vlen vcap vmem length]; auto; try lia.
-    unfold store_ok. cbn. lia.
+    unfold store_ok. cbn [vlen vcap vmem]. rewrite uninit_length. lia.
 Qed.
 
 Lemma stackn_fits_pinned_refuted :
@@ -432,10 +432,11 @@ Theorem push_ok c v u xs t k :
   (vlen v < vcap v \/ grow_ok c v (vcap v + 1)) ->
   exists v' u',
     push_unchecked c (VBytes (enc (szn c) t) k) (v, u) = Ok tt (v', u') /\
-    Rep c v' (sp_push t xs) /\ vbk v' = vbk v /\ same_user u u'.
+    Rep c v' (sp_push t xs) /\ vbk v' = vbk v /\ same_user u u' /\
+    (vlen v < vcap v -> vcap v' = vcap v /\ vgen v' = vgen v).
 Proof.
   intros Hwf HR Ht Hg.
-  destruct (reserve_one_ok c v u xs Hwf HR Hg) as (v1 & u1 & E1 & HR1 & Hlt & Hl & Hbk & Hsu & _).
+  destruct (reserve_one_ok c v u xs Hwf HR Hg) as (v1 & u1 & E1 & HR1 & Hlt & Hl & Hbk & Hsu & Hsame).
   unfold push_unchecked. bstep E1.
   assert (Eg : getv (v1, u1) = Ok v1 (v1, u1)) by reflexivity. bstep Eg.
   destruct HR1 as [Hlen Hcap Hus Hst Hmem Htok].
@@ -447,7 +448,8 @@ Proof.
   assert (Ew := write_bytes_ok c (bo c (vlen v1)) (enc (szn c) t) k v1 u1 Hst).
   rewrite Hoff in Ew. specialize (Ew Hb (enc_length _ _)).
   rewrite Hoff. bstep Ew. unfold setv. cbn [fst snd].
-  eexists _, _. split; [reflexivity|]. splits; auto.
+  eexists _, _. split; [reflexivity|]. splits; auto;
+    [|intros Hroom; destruct (Hsame Hroom) as [-> _]; split; reflexivity].
   unfold sp_push.
   constructor; cbn [with_len with_mem vlen vcap vmem]; auto.
   - rewrite app_length. cbn [length]. lia.
@@ -516,10 +518,11 @@ Lemma insert_run c v u xs t i :
   (vlen v < vcap v \/ grow_ok c v (vcap v + 1)) ->
   exists v' u',
     (forall k, insert_unchecked c (N.of_nat i) (VBytes (enc (szn c) t) k) (v, u) = Ok tt (v', u')) /\
-    Rep c v' (sp_insert i t xs) /\ vbk v' = vbk v /\ same_user u u'.
+    Rep c v' (sp_insert i t xs) /\ vbk v' = vbk v /\ same_user u u' /\
+    (vlen v < vcap v -> vcap v' = vcap v /\ vgen v' = vgen v).
 Proof.
   intros Hwf HR Ht Hi Hg.
-  destruct (reserve_one_ok c v u xs Hwf HR Hg) as (v1 & u1 & E1 & HR1 & Hlt & Hl & Hbk & Hsu & _).
+  destruct (reserve_one_ok c v u xs Hwf HR Hg) as (v1 & u1 & E1 & HR1 & Hlt & Hl & Hbk & Hsu & Hsame).
   pose proof (rep_len _ _ _ HR) as Hlenv.
   destruct HR1 as [Hlen Hcap Hus Hst Hmem Htok].
   set (a := firstn i xs). set (b := skipn i xs).
@@ -560,7 +563,8 @@ Proof.
         rewrite memmove_length by lia. exact Hst.
       -  cbn [with_len with_mem vcap]. lia. }
     bstep Ew. unfold setv. cbn [fst snd]. reflexivity.
-  - splits; auto.
+  - splits; auto;
+      [|intros Hroom; destruct (Hsame Hroom) as [-> _]; split; reflexivity].
     unfold sp_insert. fold a b.
     constructor; cbn [with_len with_mem vlen vcap vmem]; auto.
     + rewrite app_length. cbn [length]. lia.
@@ -579,7 +583,8 @@ Theorem insert_ok c v u xs t k i :
   (vlen v < vcap v \/ grow_ok c v (vcap v + 1)) ->
   exists v' u',
     insert_unchecked c (N.of_nat i) (VBytes (enc (szn c) t) k) (v, u) = Ok tt (v', u') /\
-    Rep c v' (sp_insert i t xs) /\ vbk v' = vbk v /\ same_user u u'.
+    Rep c v' (sp_insert i t xs) /\ vbk v' = vbk v /\ same_user u u' /\
+    (vlen v < vcap v -> vcap v' = vcap v /\ vgen v' = vgen v).
 Proof.
   intros Hwf HR Ht Hi Hg.
   destruct (insert_run c v u xs t i Hwf HR Ht Hi Hg) as (v' & u' & E & H).
